@@ -71,3 +71,11 @@ package main
 //@   all-calls builder.BuildParser [build-error-exits C13] berr == nil
 //@   all-calls imports.Process [format-error-exits C13] ferr == nil
 //@   all-calls io.WriteCloser.Write [write-error-exits C13] werr == nil
+// flag plumbing: every generator / front-end option is built from the flag it is documented for
+//@   all-calls builder.Optimize [flag-optimize-parser C10] optimize == atcall(*optimizeParserFlag)
+//@   all-calls builder.BasicLatinLookupTable [flag-optimize-basic-latin C15] x == atcall(*optimizeBasicLatinFlag)
+//@   all-calls builder.SupportLeftRecursion [flag-support-left-recursion C07 C08] x == atcall(*supportLeftRecursion)
+//@   all-calls builder.Nolint [flag-nolint C04] x == atcall(*nolint)
+//@   all-calls builder.ReceiverName [flag-receiver-name C04] nm == atcall(*recvrNmFlag)
+//@   all-calls ast.Optimize [flag-optimize-grammar C09] atcall(*optimizeGrammar) && !atcall(*noBuildFlag)
+//@   all-calls builder.BuildParser [flag-x C13] !atcall(*noBuildFlag)
